@@ -5,6 +5,7 @@ import BeyondVerif.Generated.DkepR
 import BeyondVerif.Generated.AccelSrcR
 import BeyondVerif.Generated.KepPlaneR
 import BeyondVerif.Generated.AccelLoopSrc
+import BeyondVerif.Generated.FrameNames
 noncomputable section
 namespace BeyondVerif.R
 open BeyondVerif.NumReal
@@ -83,5 +84,33 @@ def accelOf (pos vel : V3) (bodies : List (R × V3)) (mans : List ContMan) : Opt
   BeyondVerif.AccelLoop.run V3.add (fun b => gravTerm b.1 b.2 pos)
     (fun m => if m.on then some (manProject m.tag pos vel m.acc) else none) bodies mans V3.zero
     BeyondVerif.Generated.AccelLoopSrc.accelProg
+
+/-! ### centres
+
+The reference orbit is given relative to the centre of the frame it is expressed in (`cRef`), the converted state
+relative to the centre of its own frame (`cX`); `cParent` is the centre of the `parent` argument.  All centres and vectors
+are expressed in one common inertial frame.  `orbit2frame` hangs the centre of the new frame under one of the two centres
+(`Generated/FrameNames.centreLinkedTo`, read from the `add_link` call) with the reference orbit as offset; the local
+orbital axes are those of the reference orbit seen from the parent (`sv.copy(frame=self.parent)`). -/
+
+def St.add (a b : St) : St := ⟨V3.add a.p b.p, V3.add a.v b.v⟩
+def St.sub (a b : St) : St := ⟨V3.sub a.p b.p, V3.sub a.v b.v⟩
+
+/-- the centre the new centre is linked under -/
+def linkCentre (l : BeyondVerif.Generated.FrameNames.CentreLink) (cRef cParent : St) : St :=
+  match l with
+  | BeyondVerif.Generated.FrameNames.CentreLink.refFrameCentre => cRef
+  | BeyondVerif.Generated.FrameNames.CentreLink.parentCentre => cParent
+
+/-- origin of the frame attached to `ref`: the linked centre plus the offset `ref` -/
+def frameOrigin (l : BeyondVerif.Generated.FrameNames.CentreLink) (cRef cParent ref : St) : St :=
+  St.add (linkCentre l cRef cParent) ref
+
+/-- state `x` (relative to `cX`) converted into the frame attached to `ref` (relative to `cRef`) -/
+def frameToC (l : BeyondVerif.Generated.FrameNames.CentreLink) (t : Tag) (cRef cParent cX ref x : St) : St :=
+  let seen := St.sub (St.add cRef ref) cParent
+  let m := toLocal t seen.p seen.v
+  let d := St.sub (St.add cX x) (frameOrigin l cRef cParent ref)
+  ⟨m.mulVec d.p, m.mulVec d.v⟩
 
 end BeyondVerif.R
